@@ -299,8 +299,8 @@ def syntax_class(hdr: str):
     exps = _attrs_of(hdr, "expires")
     if exps and not _STD_DATE.match(exps[-1]) and not _STD_DATE2.match(exps[-1]):
         return "expires_nonstandard_date_format"
-    if exps and date_class(exps[-1]):
-        return date_class(exps[-1])
+    # (year-before-day and no-such-date spellings were classes of their own, C16-F10/F11, until the jar's date
+    # parser was repaired; such histories are now judged like any other)
     paths = _attrs_of(hdr, "path")
     if paths and paths[-1].endswith("//"):
         return "path_multiple_trailing_slashes"
